@@ -8,7 +8,7 @@ from ..selftest import Mutant
 
 ID = "C33"
 TECHNIQUE = "writer/reader table extraction for the search-recipe wire format (K6) and guard on the count check (K2) (ast)"
-FLOOR = 12
+FLOOR = 18
 VS = "breezy/bzr/vf_search.py"
 SR = "breezy/bzr/smart/repository.py"
 RM = "breezy/bzr/remote.py"
